@@ -6,7 +6,8 @@ Import ListNotations.
 Open Scope Z_scope.
 
 (* what the driver saw: the replacement that reached SendTransaction (decoded from its raw
-   encoding), whether the node took it, and CancelTx's return (nil error / NotFound class / panic) *)
+   encoding; if several were submitted by one CancelTx: the one the node ACCEPTED, else the first),
+   whether the node took one, and CancelTx's return (nil error / NotFound class / panic) *)
 Record obs := { b_sub : option ctx; b_acc : bool; b_ok : bool; b_notfound : bool; b_panic : bool }.
 
 Record case := { id : N; cl : client; lk : lookup; tp : tipans; pr : priceans; sg : bool; sb : bool;
@@ -49,6 +50,7 @@ Definition violation (c : case) : option string :=
           else if negb ((Z.max (o_tip g) sug * 110) / 100 <=? x_tip t) then Some "cancel-shape:tip"%string
           else if negb (o_fee g + x_tip t <=? x_fee t) then Some "cancel-shape:fee"%string
           else if b_ok o && negb (b_acc o) then Some "submitted-on-refusal"%string
+          else if b_acc o && negb (b_ok o) then Some "submitted-on-refusal"%string   (* error returned, yet the node took one *)
           else None
       | _, _ => Some "submitted-on-refusal"%string     (* target not pending, or a call failed *)
       end
